@@ -49,12 +49,12 @@ def main():
     from vlib import model, refreader, spec as vspec
 
     main_pid = os.getpid()
-    state = dict(accepts=0, write_events=0, writes=0, result=None, writes_log=[])
+    state = dict(accepts=0, write_events=0, writes=0, result=None, writes_log=[], writes_by=[])
 
     def digest(exprs):
         """digest of the content *with* comments (erasing a comment is a
         legitimate step that changes the file but not the token sequence)"""
-        return '%016x' % vspec.token_hash(vspec.seq_with_comments(model.to_plain(exprs)))
+        return '%016x' % vspec.token_hash(vspec.seq_with_comments(model.to_plain(exprs)), canon=False)
 
     def tokdigest(exprs):
         return '%016x' % vspec.token_hash(refreader.flatten_top(model.to_plain(exprs)))
@@ -77,10 +77,16 @@ def main():
         orig_apply = mutator_utils.apply_simp
 
         def apply_simp(exprs, simp):
+            pre_ = {k: str(v) for k, v in simp.substs.items()}
             res = orig_apply(exprs, simp)
             try:
                 if res is not None and isinstance(exprs, list):
-                    emit(dict(e='A', base=digest(exprs), cand=digest(res)))
+                    b_, c_ = digest(exprs), digest(res)
+                    emit(dict(e='A', base=b_, cand=c_))
+                    if b_ == c_:
+                        ids_ = {n.id: str(n) for n in nodes.dfs(exprs)}
+                        emit(dict(e='NOOP', substs={str(ids_.get(k, k)): v for k, v in pre_.items()},
+                                  fresh=[str(v) for v in simp.fresh_vars]))
             except Exception:  # noqa
                 emit(dict(e='A-error', err=traceback.format_exc()[-300:]))
             return res
@@ -122,6 +128,7 @@ def main():
         if is_out:
             state['writes'] += 1
             dg = digest(exprs)
+            state['writes_by'].append(state.get('current_mutator'))
             if plan.get('stop_on_repeat') and dg in state['writes_log']:
                 # the run came back to an input it had already adopted: a cycle
                 # (C03); stop here instead of looping until the wall limit
@@ -162,6 +169,31 @@ def main():
         return res
 
     nodeio.write_smtlib_to_file = write_smtlib_to_file
+
+    # -------------------------------------- which mutator produced a write
+    from ddsmt import debug_utils
+    descr = {}
+    for theory, (mod, muts_) in mutators.get_all_mutators().items():
+        for cname in muts_:
+            try:
+                descr[str(getattr(mod, cname)())] = cname
+            except Exception:  # noqa
+                pass
+    orig_dump = debug_utils.dump_diff
+
+    def dump_diff(description, before, after_):
+        d_ = description.replace('(global) ', '')
+        state['current_mutator'] = descr.get(d_, descr.get(d_.split(' (')[0], d_))
+        return orig_dump(description, before, after_)
+
+    debug_utils.dump_diff = dump_diff
+    tg_init0 = strategy_ddmin.TaskGenerator.__init__
+
+    def tg_init_names(self, exprs, gran, mutator, max_depth=None):
+        state['current_mutator'] = type(mutator).__name__
+        return tg_init0(self, exprs, gran, mutator, max_depth)
+
+    strategy_ddmin.TaskGenerator.__init__ = tg_init_names
 
     # ---------------------------------------------------------------- G
     def ids_distinct(exprs):
@@ -236,7 +268,7 @@ def main():
         sys.stderr.write(err)
         rc = 70
     after = dict(rc=rc, err=err, wall=time.time() - t0, writes=state['writes'],
-                 writes_log=state['writes_log'],
+                 writes_log=state['writes_log'], writes_by=state['writes_by'],
                  write_events=state['write_events'], accepts=state['accepts'],
                  interrupted_in_write=state.get('interrupted_in_write'),
                  stopped=state.get('stopped', False), repeat=state.get('repeat'),
